@@ -143,6 +143,9 @@ func runnerOne(w *outW, in *interner, rng *rand.Rand, id, proto string, np int) 
 	net := &advNet{pools: map[sharing.ID][]wireMsg{}, wake: map[sharing.ID]chan struct{}{}, rng: rand.New(rand.NewPCG(rng.Uint64(), 3)),
 		in: in, closed: make(chan struct{})}
 	parties := map[sharing.ID]*partyRun{}
+	for _, p := range ids { // all wake channels exist before the first dispatcher reads the map
+		net.wake[p] = make(chan struct{}, 1)
+	}
 	for _, p := range ids {
 		rec := &recorder{in: in}
 		d := &hdelivery{id: p, quorum: ids, in: make(chan wireMsg), quit: make(chan struct{}), rec: rec, honour: true}
@@ -151,7 +154,6 @@ func runnerOne(w *outW, in *interner, rng *rand.Rand, id, proto string, np int) 
 			net.send(pp, to, append([]byte(nil), data...))
 			return nil
 		}
-		net.wake[p] = make(chan struct{}, 1)
 		rt := network.NewRouter(d)
 		d.router = rt
 		register(network.VerifCoreOf(rt), rec)
